@@ -75,6 +75,10 @@ CHECKS = {
          "Short-Weierstrass (emulated secp256k1, BN254, P-256, P-384, BLS12-381, BW6-761; native BLS12-377) and twisted-Edwards group operations, scalar and multi-scalar multiplication with and without complete arithmetic on exceptional points and scalars, ECDSA / EdDSA / ecrecover accept-sets against crypto/ecdsa and gnark-crypto, pairing checks on true and false equations; on compiled circuits the GLV / fake-GLV decomposition and scalar-mul hints are rewritten and a wrong claimed point must be unsatisfiable.",
          "Ten open findings (F24-F32, F39: unchecked zero sub-scalars, selector bypass, AddUnified exceptional case, non-terminating half-GCD hint, unsatisfiable small scalars, twisted-Edwards decomposition not bound, ECDSA x(R) not reduced, bandersnatch identity) are each probed on every run, printed as KNOWN-FINDING and excluded by exact shape; inputs outside a method's documented domain are not asserted.",
          "DESIGN.md §3 C16"),
+ "C20": ("invariant checking over repeated proofs with captured wire values (rapid, verif hook)",
+         "For generated circuits (0-3 commitments, low-entropy committed secrets) on all curves and both backends, M proofs of the same witness are made in one process while the verif hook captures the wire values of each solve: no blinded element may repeat across proofs, Groth16 Ar/Bs must differ from alpha+sum(w_i A_i) / beta+sum(w_i B_i) (non-zero, pairwise distinct, r != s via pairings), commitments must differ from the unmasked Pedersen / KZG commitment, and with a known toxic value PLONK's L,R,O,Z commitments and claimed values must differ from the unblinded ones recomputed from the captured columns.",
+         "Inequalities that hold for every draw of the prover randomness but a negligible set: absent blinding, a reused nonce or a zero mask are caught with certainty; weak but non-repeating randomness is invisible; under the statistical-ZK option only distinctness of the quotient shards is asserted.",
+         "DESIGN.md §3 C20"),
 }
 
 PENDING = {}
